@@ -49,16 +49,45 @@ def run(tier, seed, replay):
             run.failure(fl)
         run.traces += s2["histories"]
         run.evaluations += s2["events"]
+    # 4. unbounded part (Apalache): the implementation-shaped cache with 5 keys, ANY capacity, ANY stamps and histories of
+    #    ANY length keeps an inductive invariant that contains the capacity bound and "no value leaks to another key"
+    proof = {"obligations": 0, "discharged": 0, "mutants_rejected": []}
+    if not replay:
+        mod = os.path.join(C.SPEC, "apalache", "CacheInd.tla")
+        for nm, args in [("init", ["--init=Init", "--inv=IndInv", "--length=0"]), ("step", ["--init=IndInit", "--inv=IndInv", "--length=1"])]:
+            ok, violated, lg = C.run_apalache(mod, args, "C20_" + nm)
+            proof["obligations"] += 1
+            if ok:
+                proof["discharged"] += 1
+            else:
+                raise C.ToolError("the inductive invariant of spec/apalache/CacheInd.tla is not inductive any more (%s): the MODEL needs attention" % lg)
+        # the obligations are not vacuous: two wrong models must be refuted
+        src = open(mod).read()
+        muts = [("cleanup_only_when_over_capacity", ("IF Cardinality(Dom) >= cap", "IF Cardinality(Dom) > cap")),
+                ("tighter_bound", ("Bounded == Cardinality(Dom) <= cap\n", "Bounded == Cardinality(Dom) <= cap - 1\n"))]
+        if tier == "thorough":
+            muts.append(("values_leak", ("val' = [v1 EXCEPT ![k] = v]", "val' = [v1 EXCEPT ![k] = v + 100]")))
+        for nm, (a, b) in muts:
+            assert a in src
+            md = os.path.join(d, "apalache_" + nm)
+            os.makedirs(md, exist_ok=True)
+            open(os.path.join(md, "CacheInd.tla"), "w").write(src.replace(a, b, 1))
+            ok, violated, lg = C.run_apalache(os.path.join(md, "CacheInd.tla"), ["--init=IndInit", "--inv=IndInv", "--length=1"], "C20_mut_" + nm)
+            if ok:
+                raise C.ToolError("the wrong cache model '%s' was NOT refuted by Apalache: the inductive check would be vacuous" % nm)
+            proof["mutants_rejected"].append(nm)
     run.nontrivial = s1["steps_with_eviction"]
     run.rule = ("MC: every transition TLC generates from the implementation-shaped cache model "
                 "(keys/capacities/ops per the .cfg) is replayed on the real LimitedCache (history to reach the "
                 "pre-state + one call) and the real step validated against the abstract relation AbsStep; "
                 "random: long seeded histories, cap 1..64, 10-20 keys, every step validated. "
                 "non-trivial = replayed transition in which the real cache evicted at least one entry "
-                "(distinct by construction: one per generated transition)")
+                "(distinct by construction: one per generated transition). Apalache: IndInv of spec/apalache/CacheInd.tla "
+                "(capacity bound + no value under another key, 5 keys, any capacity / stamps / history length) is checked inductive "
+                "(Init => IndInv, IndInv /\\ Next => IndInv'), wrong models must be refuted")
     run.samples = [c for c in case_list if len(c["hist"]) >= 4][:3] + s2.get("samples", [])[:2]
     run.exhaustive = mc is not None
-    run.extra = {"replayed_transitions": s1["cases"],
+    run.extra = {"inductive_invariant_apalache": proof, "replayed_transitions": s1["cases"],
                  "replayed_equal_to_impl_layer_model": s1["equal_to_impl_layer"],
                  "random_histories": s2["histories"], "random_steps": s2["events"],
                  "random_steps_with_eviction": s2["steps_with_eviction"],
